@@ -13,6 +13,7 @@ require (
 	github.com/hydrogen18/memlistener v1.0.0
 	github.com/pkg/errors v0.9.1
 	google.golang.org/grpc v1.56.3
+	google.golang.org/protobuf v1.33.0
 )
 
 require (
@@ -24,7 +25,6 @@ require (
 	golang.org/x/sys v0.18.0 // indirect
 	golang.org/x/text v0.14.0 // indirect
 	google.golang.org/genproto v0.0.0-20230410155749-daa745c078e1 // indirect
-	google.golang.org/protobuf v1.33.0 // indirect
 )
 
 replace github.com/cockroachdb/errors => /repo
